@@ -368,11 +368,27 @@ def run(tape, prop, tier):
                     loop.call_later(when, do_idle_close)
 
                 yield from asyncio.wait(tlist)
-                for t in tlist:
+                for ci, t in enumerate(tlist):
                     if not t.cancelled() and t.exception() is not None:
-                        raise t.exception()
+                        exc = t.exception()
+                        import traceback
+                        tb = traceback.extract_tb(exc.__traceback__)
+                        inpool = [f for f in tb if f.filename.endswith(('network/pool.py', 'abstract/client.py', 'network/connection.py'))]
+                        if not inpool:
+                            raise exc          # harness bug
+                        f = inpool[-1]
+                        r.violate(P, 'pool-api-exception', '%s:%s' % (type(exc).__name__, f.name),
+                                  'client %d: %s: %s raised in %s:%d %s' % (ci, type(exc).__name__, exc, f.filename.split('/')[-1], f.lineno, f.name))
                 # drain deferred releases the way the pool itself does it
-                yield from pool._process_no_wait_releases()
+                try:
+                    yield from pool._process_no_wait_releases()
+                except Exception as exc:
+                    import traceback
+                    tb = traceback.extract_tb(exc.__traceback__)
+                    inpool = [f for f in tb if f.filename.endswith(('network/pool.py', 'abstract/client.py', 'network/connection.py'))]
+                    f = inpool[-1] if inpool else tb[-1]
+                    r.violate(P, 'pool-api-exception', '%s:%s' % (type(exc).__name__, f.name),
+                              'deferred release failed: %s: %s raised in %s:%d %s' % (type(exc).__name__, exc, f.filename.split('/')[-1], f.lineno, f.name))
 
             try:
                 env.run(main())
